@@ -1477,6 +1477,21 @@ impl Simulator {
         Ok(())
     }
 }
+#[cfg(endorpersand_lc3_ensemble_verif)]
+impl Simulator {
+    /// Verification hook: the saved stack pointer (the one currently not in R6).
+    pub fn verif_saved_sp(&self) -> Word {
+        self.saved_sp
+    }
+    /// Verification hook: whether the PC has not yet been advanced by the fetch stage.
+    pub fn verif_prefetch(&self) -> bool {
+        self.prefetch
+    }
+    /// Verification hook: the allocated blocks `(start, len)` of the last loaded object file.
+    pub fn verif_alloca(&self) -> &[(u16, u16)] {
+        &self.alloca
+    }
+}
 impl Default for Simulator {
     fn default() -> Self {
         Self::new(Default::default())
